@@ -154,6 +154,9 @@ def build(ck):
              'lemma:LA9 Mat maps row / diag / col to hstack / block_diag / vstack of the blocks\' dense forms',
              'lemma:container-congruence (block row / diagonal / column are functions of their blocks)',
              'lemma:induction on the number of leaves folded (dependency contract of jax.tree.reduce, theories/blocks.py)',
+             'discharges:theories/alg.block_structure_contracts (callee contracts of in_structure / out_structure assumed by C01, '
+             'C03, C07: TreeIn / TreeOut = the container of the blocks\' structures, ins / outs of the first leaf on the shared side) '
+             'and theories/alg.container_callee_contracts Block*.__init__ (ValueError iff a shared structure differs)',
              'ref:C03 transposes of block operators (scenarios shared, run here too)',
              'ref:C01 reduce of block operators and the four block rules (scenarios shared, run here too)')
     ck.assume_note('C10: a pytree container of operators is a treedef token + the sequence of its leaves (flat model); '
